@@ -1,4 +1,5 @@
-(* C20 -- witnesses for the places where the pinned code violates the property. *)
+(* C20 -- witnesses for the places where the code violates the property (the retention witnesses of the first version
+   are gone: repaired by 8755e5f and f977176). *)
 From Coq Require Import List Arith ZArith Bool NArith Lia.
 Import ListNotations.
 Require Import FV.Gen.C20 FV.C20.Model FV.C20.Lemmas FV.C20.LemmasRot.
@@ -6,7 +7,7 @@ Require Import FV.Gen.C20 FV.C20.Model FV.C20.Lemmas FV.C20.LemmasRot.
 Definition m0 : name := [109; 48]%N.
 Definition frappy : name := [102; 114; 97; 112; 112; 121]%N.
 Definition date_n (n : N) : name := [50; 48; 50; 52; 45; 48; 49; 45; 48; 48 + n]%N.   (* 2024-01-0n *)
-Definition dated (n : N) : entry := {| e_name := log_name frappy (date_n n); e_dir := false |}.
+Definition dated (n : N) : entry := {| e_name := log_name frappy (date_n n); e_file := true |}.
 
 (* finding C20/record-level-without-name: the connection chose debug for m0, a record of level 50 (critical)
    is at or above that level, yet nothing is delivered and the logging call raises KeyError *)
@@ -19,33 +20,17 @@ Proof.
   vm_compute. repeat split; discriminate.
 Qed.
 
-(* finding C20/rollover-removes-newest: the slice in the source is files[-max_days:] *)
-Theorem C20_refuted_retention :
-  source_slice = SliceTail /\
-  exists prefix n d date,
-    0 < n /\ has_name (log_name prefix date) (fst (do_rollover source_slice prefix n d date)) = false.
+(* finding C20/rollover-later-dated-file (open): the repaired doRollover keeps the max_days greatest names; a log file of the
+   handler dated later than the file being written (clock set back, copied file) takes one of these places, so with
+   max_days = 1 the file being written is removed *)
+Theorem C20_refuted_later_dated_file :
+  source_slice = SliceHead /\
+  exists prefix d date,
+    NoDup (map e_name d) /\
+    has_name (log_name prefix date) (do_rollover source_slice prefix 1 d date) = false.
 Proof.
   split; [reflexivity|].
-  exists frappy, 2, [dated 1; dated 2; dated 3; dated 4], (date_n 5).
-  split; [lia|]. vm_compute. reflexivity.
-Qed.
-
-(* ... and this happens in every rollover with retention > 0 of a directory without sub-directories in which the
-   new file name sorts last: the file just opened is removed *)
-Theorem C20_refuted_retention_everywhere : forall prefix n d date,
-  (forall e, In e (open_file d (log_name prefix date)) -> e_dir e = false) ->
-  (forall e, In e (open_file d (log_name prefix date)) -> e_name e <> cur_name ->
-             name_leb (e_name e) (log_name prefix date) = true) ->
-  has_name (log_name prefix date) (fst (do_rollover source_slice prefix (S n) d date)) = false.
-Proof.
-  intros. change source_slice with SliceTail. apply tail_removes_written; auto.
-Qed.
-
-(* finding C20/rollover-removes-foreign: a file that is no log file of the handler is removed *)
-Theorem C20_refuted_foreign_removed :
-  exists prefix n d date foreign,
-    has_name foreign d = true /\ has_name foreign (fst (do_rollover source_slice prefix n d date)) = false.
-Proof.
-  exists frappy, 1, [dated 1; {| e_name := [122; 122]%N; e_dir := false |}], (date_n 5), [122; 122]%N.
-  vm_compute. split; reflexivity.
+  exists frappy, [dated 3; dated 9], (date_n 5).
+  split; [|vm_compute; reflexivity].
+  repeat constructor; simpl; intros H; repeat destruct H as [H|H]; try discriminate; auto.
 Qed.
